@@ -12,7 +12,7 @@ integers in decimal.  One output line per input line: `ok …`, an error name, `
   geom <eps> <sens> <value:int> <u…> | geomtr|geomfold <lo> <hi> <eps> <sens> <value:int> <u…>
   snap <eps> <sens> <lo> <hi> <v> <bit> <mant:nat> <word:nat…>
   expsel <u> <close:0|1> <cum…> | catsel <t> <prob…> | binary <eps> <delta> <u> <ind:0|1>
-  pf <n> <pos flip>…
+  pf <n> <pos flip>… | bern <gamma> <u…>
 -/
 import DPL.Model.Clip
 import DPL.Model.Range
@@ -143,6 +143,13 @@ def step (_ : Unit) (ws : List String) : Unit × String :=
         | some [eps, delta, u], some ind => s!"ok {if binaryFlip eps delta u (ind != 0) then 1 else 0}"
         | _, _ => "bad-op"
       | _ => "bad-op"
+    | "bern" :: gamma :: us =>
+      match parseF gamma, parseFs us with
+      | some gamma, some us =>
+        match bernoulliNegExp gamma us with
+        | some (b, rest) => s!"ok {if b then 1 else 0} {us.length - rest.length}"
+        | none => "hang"
+      | _, _ => "bad-op"
     | "pf" :: n :: ds =>
       match n.toNat?, ds.mapM String.toNat? with
       | some n, some ds =>
